@@ -162,7 +162,7 @@ class Universe:
 
     def __init__(self, F, rng, mode='onshell', order=2, shift='full', lapse='full',
                  matter='T', vacuum=False, tetrad='quasi-Kinnersley', input_form='tensor',
-                 with_K=True, flat=False, fluid_zero=()):
+                 with_K=True, flat=False, fluid_zero=(), dtshift_free=False):
         self.F, self.rng, self.mode, self.order = F, rng, mode, order
         self.vacuum, self.tetrad = vacuum, tetrad
         self.memo = {}
@@ -241,7 +241,7 @@ class Universe:
             else:
                 K = arr([[c(0)] * 3] * 3)
             self.base.update(K=K, dtalpha=J.rand(F, max(o - 1, 0), rng, tv) if lapse == 'full' else c(0),
-                             dtbeta=arr([J.rand(F, max(o - 1, 0), rng, tv) if not e.is_identically_zero() else c(0)
+                             dtbeta=arr([J.rand(F, max(o - 1, 0), rng, tv) if (dtshift_free or not e.is_identically_zero()) else c(0)
                                          for e in beta]))
         # --- matter
         self.fluid = None
